@@ -240,7 +240,7 @@ impl FcCommand {
             }
             std::cmp::Ordering::Less => {
                 // Negative: offset from end (relative to effective count)
-                let offset = (-num) as usize;
+                let offset = num.unsigned_abs() as usize;
                 effective_count.saturating_sub(offset)
             }
         };
